@@ -124,6 +124,17 @@ def main():
                 elif not set(audit[name]) <= common.ALLOWED_AXIOMS:
                     proof_failures.append({"file": "audit", "line": 0, "decl": name,
                                            "msg": "axioms " + ",".join(audit[name])})
+            if args.tier == "thorough":
+                # independent re-check of the compiled property modules
+                import subprocess
+                mods = list(plug.TARGETS) + list(getattr(plug, "LEANCHECK_EXTRA", []))
+                p = subprocess.run(["lake", "env", "leanchecker"] + mods, cwd=common.LEAN_DIR,
+                                   capture_output=True, text=True, timeout=3000)
+                if p.returncode != 0:
+                    proof_failures.append({"file": "leanchecker", "line": 0, "decl": None,
+                                           "msg": (p.stdout + p.stderr)[-500:]})
+                else:
+                    ctx.notes.append("leanchecker accepted " + " ".join(mods))
             bad = common.grep_forbidden()
             for h in bad:
                 proof_failures.append({"file": "grep", "line": 0, "decl": None, "msg": "forbidden construct " + h})
@@ -214,6 +225,7 @@ def main():
             "model_code_disagreements": len(res.disagreements),
             "known_findings_reproduced": sorted(seen_known),
             "tie_broken": ctx.tie_broken[:10],
+            "notes": ctx.notes,
         },
         "assumptions": list(getattr(plug, "ASSUMPTIONS", [])),
         "wall_s": timer.s(),
